@@ -46,6 +46,11 @@ def badBytes (rem : List Nat) : Out :=
   | .invalid n => .bad (rem.take n)
   | .incomplete => .bad rem
 
+/-- the compaction step of `peek_char`: `if self.pos > 4 { self.buf.drain(4..self.pos); self.pos = 4 }`
+    (the guard is the repaired one; `drain(4..pos)` with `pos < 4` is a slice-index panic). -/
+def compact (s : St) : St :=
+  if s.pos > 4 then { s with buf := s.buf.take 4 ++ s.buf.drop s.pos, pos := 4 } else s
+
 /-- the `while self.pos < self.buf.len()` loop of `peek_char`; every iteration that does not
     return reads one more chunk, so `chunks.length + 1` iterations suffice. -/
 def peekLoop : Nat → St → St × Out
@@ -58,8 +63,7 @@ def peekLoop : Nat → St → St × Out
       | .ok cp _ => (s, .char cp)
       | .invalid _ => (s, badBytes rem)
       | .incomplete =>
-        let s := if s.pos > 4 then { s with buf := s.buf.take 4 ++ s.buf.drop s.pos, pos := 4 } else s
-        match readChunk s with
+        match readChunk (compact s) with
         | (s, 0) => (s, badBytes (s.buf.drop s.pos))
         | (s, _) => peekLoop fuel s
     else (s, .eof)
@@ -123,6 +127,11 @@ def specRead (l : List Nat) : List Nat × Out :=
   match firstItem l with
   | (.char cp, n) => (l.drop n, .char cp)
   | (.bad bs, n) => (l.drop n, .bad bs)
+
+/-- how an item of the decoding is reported by the reader. -/
+def itemToOut : Item → Out
+  | .char cp => .char cp
+  | .bad bs => .bad bs
 
 def specPutBack (l : List Nat) (cp : Nat) : List Nat := encode cp ++ l
 
